@@ -562,7 +562,27 @@ def run_history(sc: dict, wall_limit: float = 30.0) -> dict:
             opkw["memo"] = PoisonMemo(int(sc["memo_poison"]), rec)
         st: dict[str, Any] = {"returned": None}
 
-        with instrument(rec, poison):
+        # environment: the API server applies a peering PATCH at once but ANSWERS it late (`peering_response_latency` seconds):
+        # a client cancelled meanwhile has already written its record
+        resp_lat = float(sc.get("peering_response_latency") or 0.0)
+        o_request = fakeapi.FakeSession.request
+
+        async def slow_request(self: Any, method: str, url: str, *a: Any, **k: Any) -> Any:
+            if resp_lat and method.upper() == "PATCH" and "kopfpeerings" in url and not self.dead:
+                saved, c.latency = c.latency, 0
+                try:
+                    resp = await o_request(self, method, url, *a, **k)
+                finally:
+                    c.latency = saved
+                await asyncio.sleep(resp_lat)
+                return resp
+            return await o_request(self, method, url, *a, **k)
+
+        with contextlib.ExitStack() as stack:
+            if resp_lat:
+                fakeapi.FakeSession.request = slow_request  # type: ignore[method-assign]
+                stack.callback(lambda: setattr(fakeapi.FakeSession, "request", o_request))
+            stack.enter_context(instrument(rec, poison))
             op = runner.Operator(c, sim.registry, sim.settings(), identity="op", **opkw)
             sim.ops["op"] = op
             holder_op["op"] = op
